@@ -51,6 +51,8 @@ def gen(rng, tier):
     spec["due"] = rng.random() < 0.4
     spec["edit"] = sorted(set(rng.randint(0, 6) for _ in range(rng.randint(1, 3))))
     spec["real_dir"] = rng.random() < 0.02
+    if rng.random() < 0.05:
+        spec["model"]["init_tz"] = rng.choice([0, 9, -5])  # init_datetime carries a time zone (hours east of UTC)
     if rng.random() < 0.1:
         # names outside ASCII and the file encoding option: the saved text is pure ASCII (escapes), so any encoding can hold it
         pool = ["\u4f5c\u696d\u8005", "\u9ad9\u6a4b", "t\u00e2che", "\u03a9-team", "p\u0142yta", "\U0001f527"]
@@ -185,6 +187,9 @@ def _norm(v):
         return v
     if isinstance(v, int):
         return int(v)
+    import datetime as _dt
+    if isinstance(v, _dt.datetime) and v.tzinfo is not None:
+        return v.replace(tzinfo=None)  # the saved format holds the wall-clock reading; the zone is not a simulation setting
     return v
 
 
